@@ -258,13 +258,19 @@ def _monitor(code):
 
 class Explorer:
     def __init__(self, body, hashing=True, horizon=200, max_dev=None,
-                 max_execs=None, on_result=None, stop_frame_code=None):
+                 max_execs=None, on_result=None, stop_frame_code=None,
+                 default='zero', default_seed=0):
         self.body = body
         self.hashing = hashing
         self.horizon = horizon
         self.max_dev = max_dev
         self.max_execs = max_execs
         self.on_result = on_result
+        # default answer of a new choice point: 0 ('zero') or a fixed
+        # pseudo-random but deterministic function of the position ('mix');
+        # deviations are counted against this default schedule
+        self.default = default
+        self.default_seed = default_seed
         self.active = False
         self.oracle = Oracle(self)
         self.seen = set()
@@ -289,6 +295,17 @@ class Explorer:
             setattr(_random, name, val)
         self._saved = None
 
+    def _default(self, i, n):
+        if self.default == 'zero' or n <= 1:
+            return 0
+        x = (i * 0x9E3779B1 + self.default_seed * 0x85EBCA6B + 0x27D4EB2F) & 0xFFFFFFFF
+        x ^= x >> 15
+        x = (x * 0x2C1B3C6D) & 0xFFFFFFFF
+        x ^= x >> 12
+        x = (x * 0x297A2D39) & 0xFFFFFFFF
+        x ^= x >> 15
+        return x % n
+
     # ---- choice points ------------------------------------------------------
     def choose(self, n, kind):
         i = len(self.trace)
@@ -305,7 +322,7 @@ class Explorer:
                 if key in self.seen:
                     raise _Cut()
                 self.seen.add(key)
-            c = 0
+            c = self._default(i, n)
         self.trace.append(c)
         self.arity.append(n)
         return c
@@ -496,7 +513,7 @@ class Explorer:
                 st['horizon'] += 1
                 st['cap_hit'] += 1
             ch, ar = x['choices'], x['arity']
-            dev = sum(1 for c in ch[:len(prefix)] if c)
+            dev = sum(1 for i, c in enumerate(ch[:len(prefix)]) if c != self._default(i, ar[i]))
             # push alternatives of the new points, deepest first so that the
             # DFS explores shallow deviations last (order is irrelevant for
             # coverage)
@@ -504,10 +521,11 @@ class Explorer:
             pushes = []
             d = dev
             for i in new_points:
-                # ch[i] == 0 for all new points
+                # ch[i] is the default answer for all new points
                 if self.max_dev is None or d + 1 <= self.max_dev:
-                    for alt in range(1, ar[i]):
-                        pushes.append(ch[:i] + (alt,))
+                    for alt in range(ar[i]):
+                        if alt != ch[i]:
+                            pushes.append(ch[:i] + (alt,))
             stack.extend(reversed(pushes))
         st['states'] = len(self.seen) if self.hashing else st['executions']
         return st
